@@ -51,14 +51,13 @@ contract("usim._primitives.context.Scope._collect_exceptions",
              "        and forall(int, lambda j: implies(0 <= j and j < i, not promoted(self._child_failures[j]))) "
              "        and result[0] is self._child_failures[i] and result[1] is None))" % NOPROM,
              # otherwise exactly the non-suppressed failures, same objects, each once, in order of occurrence
-             "implies(%s, result[0] is None)" % NOPROM,
-             "implies(%s and kept_count(self._child_failures, len(self._child_failures)) == 0, result[1] is None)" % NOPROM,
-             "implies(%s and kept_count(self._child_failures, len(self._child_failures)) > 0, "
-             "        result[1] is not None and fresh_obj(result[1]) "
+             "(result[0] is None) == (%s)" % NOPROM,
+             "implies(%s, (result[1] is None) == (kept_count(self._child_failures, len(self._child_failures)) == 0))" % NOPROM,
+             "implies(%s and result[1] is not None, "
+             "        fresh_obj(result[1]) "
              "        and len(result[1].children) == kept_count(self._child_failures, len(self._child_failures)) "
              "        and forall(int, lambda j: implies(0 <= j and j < len(result[1].children), "
              "               result[1].children[j] is kept_elem(self._child_failures, len(self._child_failures), j))))" % NOPROM,
-             "implies(%s, kept_count(self._child_failures, len(self._child_failures)) >= 0)" % NOPROM,
              "self._child_failures == old(self._child_failures)"],
          loop_invariants={"for#1": [
              "forall(int, lambda j: implies(0 <= j and j < _i, not promoted(self._child_failures[j])))",
@@ -398,7 +397,7 @@ contract("usim._primitives.context.Scope.__aexit__",
                   "implies(isinstance(self, InterruptScope), not cast(self, InterruptScope).armed)"],
          ensures=[
              # C20: leaving a block normally always yields to the other activities first
-             "implies(exc_type is None, True)",
+             "implies(exc_type is None, suspensions() >= 1)",
              # returns True (swallow) exactly for the scope's own signals when no child failure has to be reported
              "implies(exc_type is not None, result == (exc_val is self._cancel_self or "
              "        (isinstance(self, InterruptScope) and exc_val is cast(self, InterruptScope)._interrupt)))"],
